@@ -25,17 +25,22 @@ CFG = dict(
          "connection-limit rule appears: the oracle requires that to coincide with the property's 'connection or packet rate limit'.  Every call the manager makes is also "
          "forwarded to the REAL felix/nftables.IPSets writing into knftables' in-memory fake; after each CompleteDeferredWork the driver "
          "calls ApplyUpdates and lists the elements of the set THE RENDERED RULE NAMES: that programmed set must equal, as a sorted "
-         "duplicate-free list, the excluded addresses of the history so far.  non-trivial = at some flush two endpoints "
+         "duplicate-free list, the excluded addresses of the history so far.  On the SAME fake kernel the REAL nftables.NftablesTable "
+         "then programs the real rendered offload rule into cali-FORWARD, receives random SetOverlayDevices / SetWorkloadInterfaces / "
+         "SetExternalDevices lists (universe of 6 devices, duplicates, 1 case in 3 with every device present, else ~1/3 missing) and "
+         "Apply()s: the rule read back from the kernel is parsed and must be guarded, the flowtable it names must exist, and its device "
+         "list must be exactly the offered devices that exist.  non-trivial = at some flush two endpoints "
          "that need the hooks share an address, or an endpoint in the set lost its QoS feature by an update, or changed its "
          "addresses; distinct by (ip version, history, renderer configuration)",
     trusted=["Coq 8.16.1 kernel + vm_compute",
              "Common/Ipt.v match_one/matches as the meaning of an nftables rule's matches (kernel evaluation); `flow offload @ft` "
              "hands exactly the packets the rule matches to the flowtable",
-             "hand-written model coq/theories/C41/Model.v tied to felix/dataplane/linux/flowtable_mgr.go and the offload rule of "
-             "felix/rules/static.go by this correspondence run",
+             "hand-written model coq/theories/C41/Model.v tied to felix/dataplane/linux/flowtable_mgr.go, the offload rule of "
+             "felix/rules/static.go, felix/nftables/ipsets.go (set replace) and felix/nftables/table.go (flowtable object) by this correspondence run",
              "Go driver harness/C41 (overlay build, tag verif): recording IPSetsDataplane, rule text -> AST grammar",
              "sigs.k8s.io/knftables Fake as the kernel's set store (the programmed set is read back from it)"],
-    assumptions=["workload IPNetworks hold one address each (/32, /128: enforced by the v3 validator); host endpoint expected IPs carry "
+    assumptions=["the interface lister of NftablesTable works (its fall-open error path is not modelled); device names are numbered in string order",
+                 "workload IPNetworks hold one address each (/32, /128: enforced by the v3 validator); host endpoint expected IPs carry "
                  "no mask; histories with multi-address nets are outside the proved domain (wf_history)",
                  "an address is the numeric value of the member string (what the IP set layer canonicalises members to; the real "
                  "nftables IP set layer is run and its programmed elements are compared with Spec.progs = support of the latest replacement)",
